@@ -67,6 +67,13 @@ fn collect_names(di: &syn::DeriveInput, decls: &HashMap<String, syn::DeriveInput
     }
 }
 
+pub fn collect_names_pub(di: &syn::DeriveInput, decls: &HashMap<String, syn::DeriveInput>, out: &mut BTreeSet<String>) {
+    collect_names(di, decls, &mut BTreeSet::new(), out)
+}
+pub fn compose_pub(r: &mut Rng, info: &RecvInfo, mistakes: usize) -> (Vec<String>, usize) {
+    compose(r, info, mistakes)
+}
+
 /// syn's verdict on the string literals inside a declaration's `#[darling(..)]` options
 /// (paths of `default = "..."`, `map = "..."`, …; predicates of `bound = "..."`)
 pub fn decl_oracle_rows(di: &syn::DeriveInput) -> Vec<Sx> {
